@@ -53,7 +53,7 @@ fn k_vertex_declaration_writer_2() {
     core::mem::forget(decls);
 }
 
-//@unit props=C06 label=S tier=thorough fn=model_vertex_declarations::vertex_element_parser bound="count 1; one element (stream, offset, usage_index symbolic; type Half4, usage Position) followed by a 0xFF slot, in a 136-byte block" stubs=fmt::format
+//@unit props=C06 label=S tier=parked fn=model_vertex_declarations::vertex_element_parser bound="count 1; one element (stream, offset, usage_index symbolic; type Half4, usage Position) followed by a 0xFF slot, in a 136-byte block" stubs=fmt::format
 //@desc the parser returns the element and consumes exactly 17 slots of 8 bytes
 #[kani::proof]
 #[kani::unwind(6)]
